@@ -99,6 +99,12 @@ func feed(cfg config, stream []byte, chunks []int, judgeFrom int) (*ls.Loop, *re
 		}
 		pos += n
 	}
+	// the messages the listener kept still hold what they held on delivery
+	// (every Send above used a buffer that was overwritten afterwards)
+	if was, now, yes := l.Overwritten(); yes && len(stream) > judgeFrom {
+		report("deliver:retained-message-overwritten", cfg, stream, chunks, fmt.Sprintf("a message handed to the listener (% X) changed afterwards to % X", was, now))
+		return l, ref, false
+	}
 	return l, ref, true
 }
 
